@@ -170,6 +170,18 @@ LeavesG6 ==
   \* plain conditions to combine with
   \o << CmpC("eq", At(x, "n"), At(y, "m")), CmpC("ge", At(x, "n"), LitI(1)), CmpC("ne", At(y, "n"), LitI(0)) >>
 
+(* ---- G4: rule heads T(f1 = e1, ...) over x = V(1), y = V(2); every head mentions both ----*)
+HeadArg(name, e) == [name |-> name, e |-> e]
+RuleHead(cls, args) == [cls |-> cls, args |-> args]
+Heads ==
+  LET x == V(1)  y == V(2) IN
+  << RuleHead("P", <<HeadArg("a", x), HeadArg("b", y)>>),
+     RuleHead("P", <<HeadArg("a", At(x, "n")), HeadArg("b", y), HeadArg("c", LitI(0))>>),
+     RuleHead("P", <<HeadArg("a", y), HeadArg("b", At(x, "s"))>>),
+     RuleHead("P", <<HeadArg("a", At(x, "ref")), HeadArg("b", At(y, "m")), HeadArg("c", LitNone)>>),
+     RuleHead("R", <<HeadArg("a", x), HeadArg("b", At(y, "items"))>>),
+     RuleHead("R", <<HeadArg("b", At(x, "o")), HeadArg("a", At(y, "n"))>>) >>
+
 NotDepth(c) == IF c.k # "not" THEN 0 ELSE IF c.c.k # "not" THEN 1 ELSE 2
 
 RECURSIVE NLeaves(_)
